@@ -20,9 +20,9 @@ func allIdx(n int) []int {
 
 func c18Pads(lvl int) []string {
 	if lvl == 0 {
-		return []string{"", " ", "\t", "\n", "\r"}
+		return []string{"", " ", "\t", "\n", "\r", "\n ", " \n", "\r\n"}
 	}
-	return []string{"", " ", "\t", "\r", "\n", "  ", " \t", "\n "}
+	return []string{"", " ", "\t", "\r", "\n", "  ", " \t", "\n ", " \n", "\r\n", "\t\n ", " \r"}
 }
 
 func c18Unit(name string, lvl int) core.Unit {
@@ -344,7 +344,7 @@ func init() {
 				"distinct_nontrivial":           r.Counters["nontrivial"],
 			}
 		},
-		Rule:        "for every accepted version string of C01's quick universe and every accepted range string of the range grammar: String() equals the input up to outer whitespace; String() parses again to an equal value (ranges: identical membership on a 40-version probe set); every padding lead x trail over {'', SP, TAB, LF, CR} (thorough: 8 paddings incl. two-character ones) leaves acceptance, String(), Compare against the unpadded value itself (= 0) and Compare against a stride probe set (24 / 80 versions, both argument orders, and padded-vs-padded) / Contains unchanged; rejected candidate strings stay rejected when padded; 12 versions per ecosystem are also padded with 300 and 5000 blanks / line feeds / tabs. distinct_nontrivial = accepted versions + accepted ranges.",
+		Rule:        "for every accepted version string of C01's quick universe and every accepted range string of the range grammar: String() equals the input up to outer whitespace; String() parses again to an equal value (ranges: identical membership on a 40-version probe set); every padding lead x trail over {'', SP, TAB, LF, CR, LF SP, SP LF, CR LF} (thorough: 12 paddings incl. three-character ones) leaves acceptance, String(), Compare against the unpadded value itself (= 0) and Compare against a stride probe set (24 / 80 versions, both argument orders, and padded-vs-padded) / Contains unchanged; rejected candidate strings stay rejected when padded; 12 versions per ecosystem are also padded with 300 and 5000 blanks / line feeds / tabs. distinct_nontrivial = accepted versions + accepted ranges.",
 		Assumptions: []string{"paddings are drawn from space, tab, CR, LF as the property states"},
 	})
 }
